@@ -42,7 +42,7 @@ CLAIMS = {
          "partial by nature: group scoping is regex-syntax's; definitions are sampled; the test compile of a subpattern is a parameter of the text model.",
          "proved equivalence checker per definition"),
  'C12': ("modes_agree: one well-formed graph, no root edge on a continuation byte, matches ending on char boundaries (C04) => lexing as str and as [u8] gives the same Ok items with the same spans and the same list of bytes covered by errors (byte mode splits a rounded-up error into one-byte errors); every str-mode corpus definition is compiled a second time with utf8 = false and both compiled lexers are run on the same valid UTF-8 inputs; captured graphs compared; root checked.",
-         "acceptance of non-UTF-8 patterns only in byte mode is decided by utf8ClosedB in C04 and exercised in C19; byte-mode lexing of arbitrary bytes is part of C01/C02's corpus.",
+         "C12_modes_agree_validated / C12_modes_agree_validated_look discharge the boundary hypothesis of modes_agree by the certificate and the UTF-8 closure checkers; the acceptance clause has its own pass (every attribute position: refused as str, accepted with utf8 = false); byte-mode lexing of arbitrary bytes is part of C01/C02's corpus.",
          "Lean theorem for all graphs/inputs + twin-definition correspondence"),
  'C13': ("construct / constructSkip model every CallbackRetVal / SkipRetVal impl row by row; lex_eq_spec holds for every callback table, so skips, custom errors and emitted variants are those of the reference lexer; calls_eq_spec / calls_eq_specC: a validated lexer invokes callbacks exactly as often as the reference lexer (one invocation per winning match of a leaf with a callback), and the compiled lexers' invocation counts (every zoo callback announces itself) are compared with both; zoo definitions carry callbacks of every supported return type, an error callback and bumping callbacks.",
          "callback bodies are executed, not modelled (same pure decision on both sides).",
@@ -60,9 +60,9 @@ CLAIMS = {
          "--format (rustfmt) not exercised; 'denotes Logos' = last path segment is Logos.",
          "Lean theorems on the rewrite and CLI models + structural correspondence with the real binary"),
  'C18': ("Model of AttributeParser::next and parse_definition over abstract token trees; allNested_render (the tokenizer reads back exactly the items written, in any order), named_args_perm (every permutation of well-formed named arguments parses to the same canonical Definition), parseArgs_errors_iff (acceptance depends only on the multiset of arguments); group_then_assign_counterexample proves the code as found violated it; all permutations of every argument subset run through the real derive and compared (verdict, diagnostics, leaves, generated code), the model compared with the real parser on well-formed and malformed lists.",
-         "permutation of #[logos(...)] items: for subpattern items build_perm / compileCalls_perm_items prove that any two orders keeping every subpattern defined before its use give the same regex source for every leaf (text model Subst.lean, tied by predicted-vs-real Pattern::compile sources); for the remaining items equivalence is checked on captured leaves (order-insensitive), not proved.",
+         "permutation of #[logos(...)] items: for subpattern items build_perm / compileCalls_perm_items prove that any two orders keeping every subpattern defined before its use give the same regex source for every leaf (text model Subst.lean, tied by predicted-vs-real Pattern::compile sources); for the lifetime / type items TypeItems.fixed_perm (the repaired rule is order-independent; found_order_dependent for the code as found); for the remaining items equivalence is checked on captured leaves, the impl header and the error constructor (order-insensitive), not proved.",
          "Lean theorems on the tokenizer model + all-permutations correspondence"),
- 'C19': ("greedyFixed_iff: the repaired greedy-dot check is equivalent to the declarative 'an unbounded greedy repetition of a dot occurs at some depth, possibly inside capture groups' (greedyFound_misses_*: the check as found was not); variantFixed_never_panics / variantFixed_accepts_only for the variant-shape decision; nullable_iff for the empty-match decision; a malformed stream (variant shapes, duplicated and malformed arguments, nullable patterns, look-behind, unsupported features, greedy dots at every depth, undefined subpatterns, non-UTF-8 in str mode, argument-level mutations) runs through logos_codegen::generate under catch_unwind and through rustc as a real derive on stable.",
+ 'C19': ("greedyFixed_iff: the repaired greedy-dot check is equivalent to the declarative 'an unbounded greedy repetition of a dot occurs at some depth, possibly inside capture groups' (greedyFound_misses_*: the check as found was not); variantFixed_never_panics / variantFixed_accepts_only for the variant-shape decision; nullable_iff for the empty-match decision; shape_errors_iff / assemble_wellformed (Assemble.lean, the leaf assembly of generate: which variant shapes raise a diagnostic and which leaves result), tied by predicted leaf tables;  a malformed stream (variant shapes, duplicated and malformed arguments, nullable patterns, look-behind, unsupported features, greedy dots at every depth, undefined subpatterns, non-UTF-8 in str mode, argument-level mutations) runs through logos_codegen::generate under catch_unwind and through rustc as a real derive on stable.",
          "partial: the model covers logos's decision logic, not syn or rustc; one known finding (resource exhaustion on a{1001}{1001}{1001}) is recorded, not repaired.",
          "Lean theorems on the decision logic + malformed-stream correspondence through the library and through rustc"),
  'C20': ("attemptI_reads_monotone and attemptI_reads_linear hold for every graph (no well-formedness needed): within one attempt read offsets never decrease and reads <= 4*(bytes examined)+8; the real read traces (verif_trace) equal the model's predicted traces exactly and satisfy the same predicate directly.",
